@@ -16,7 +16,11 @@ from vlib.runner import Sub, Violation
 @st.composite
 def rt_cases(draw, tier):
     big = tier == 'thorough'
-    nl = draw(gen.netlists(empty_label=False, min_inputs=0, max_inputs=6 if big else 5, max_gates=30 if big else 16, max_arity=5,
+    # mostly small, now and then long texts (dozens to hundreds of lines): whatever is done per block of lines shows there
+    long_ = draw(st.integers(0, 11)) == 0
+    nl = draw(gen.netlists(empty_label=False, min_inputs=0, max_inputs=6 if big else 5,
+                           min_gates=draw(st.sampled_from([33, 40, 65, 70, 100, 130])) if long_ else 0,
+                           max_gates=(260 if big else 140) if long_ else (30 if big else 16), max_arity=5, wide_arity=13,
                            styles=('plain', 'digits', 'mixed', 'keyword', 'keyword'), max_outputs=4,
                            const_operands=(0, 0, 2, 1, 3)))
     return {'nl': nl, 'route': draw(gen.routes(nl, allow_bench=False)), 'via_file': draw(st.integers(0, 3)) == 0,
@@ -61,10 +65,11 @@ def check_roundtrip(case):
         try:
             path = os.path.join(d, 'sub', 'c.bench')
             c.save_to_file(path)
-            with open(path) as f:
-                if f.read() != text:
-                    raise Violation('save_to_file', 'file content differs from format_circuit()')
-            parsed = core.Circuit.from_bench_file(path)
+            # (what the file holds is the library's business - the statement is about what loading it gives back)
+            try:
+                parsed = core.Circuit.from_bench_file(path)
+            except core.CirboError as e:
+                raise Violation('saved_file_rejected', f'from_bench_file(save_to_file(c)) raised {type(e).__name__}: {e}')
         finally:
             if not case.get('same_path'):
                 shutil.rmtree(d, ignore_errors=True)
@@ -85,6 +90,8 @@ def check_roundtrip(case):
     cls.add('route:' + case['route']['kind'])
     if case['via_file']:
         cls.add('via_file_same_path' if case.get('same_path') else 'via_file')
+    if sum(1 for g in nl['gates'] if g[1] != 'INPUT') > 64:
+        cls.add('long_text_via_file' if case['via_file'] else 'long_text')
     nt = any(k.startswith('kw_') for k in cls) or case['route']['kind'] == 'rename'
     return {'nt': nt and gen.nontrivial_basic(nl), 'cls': cls, 'sample': {'text': text}}
 
@@ -107,7 +114,9 @@ def _case_variant(draw, word):
 @st.composite
 def layout_cases(draw, tier):
     big = tier == 'thorough'
-    nl = draw(gen.netlists(empty_label=False, min_inputs=0, max_inputs=5, max_gates=24 if big else 14, max_arity=5,
+    long_ = draw(st.integers(0, 15)) == 0
+    nl = draw(gen.netlists(empty_label=False, min_inputs=0, max_inputs=5, min_gates=draw(st.sampled_from([33, 65, 100])) if long_ else 0,
+                           max_gates=(200 if big else 120) if long_ else (24 if big else 14), max_arity=5, wide_arity=13,
                            styles=('plain', 'digits', 'mixed', 'keyword'), max_outputs=4,
                            const_operands=(0, 0, 2, 1, 3)))
     sp = lambda: ' ' * draw(st.sampled_from([0, 0, 1, 1, 2]))
@@ -225,7 +234,8 @@ SPEC = {
     'subs': [Sub('roundtrip', rt_cases, check_roundtrip, {'quick': 2500, 'thorough': 200000}),
              Sub('layout', layout_cases, check_layout, {'quick': 2500, 'thorough': 200000})],
     'required_classes': {'roundtrip': ['kw_input_on_gate', 'kw_output_on_gate', 'kw_input_on_input', 'kw_on_output',
-                                       'route:rename', 'via_file', 'via_file_same_path', 'nary>=3', 'constant'],
+                                       'route:rename', 'via_file', 'via_file_same_path', 'nary>=3', 'constant',
+                                       'long_text', 'long_text_via_file'],
                          'layout': ['use_before_definition', 'alias_buff', 'alias_vdd', 'comment', 'kw_input_on_gate',
                                     'entry:string', 'entry:file', 'entry:parser_lines', 'entry:parser_stripped']},
 }
